@@ -14,8 +14,14 @@
        copy-rows on a bad index included), under the invariants WFd, padzero (padding bits of the last
        word are zero) and words32 (words below 2^32), all three preserved by every operation; a row is
        reported empty iff it has no bit.
-   Still missing: the SWAR popcounts (see PopcountProofs.v when present; otherwise correspondence). *)
+   (d) PopcountProofs.v, about gen/GenPopcount.v (regenerated from of_hamming_weight.c by the translator
+       on every run): the SWAR popcounts of_hweight32 and of_popcount_3 return the number of set bits
+       for EVERY 32-bit resp. 64-bit word, the byte table holds the popcount of every byte, and the
+       table-based and naive variants (hand models of a pointer cast and a loop) agree. *)
 From Coq Require Import NArith Arith List Bool.
+From Coq Require Import ZArith.
+From OFV Require Import CSem PopcountProofs.
+From OFV.gen Require Import GenPopcount.
 From OFV Require Import ListAux Dense DenseProofs DenseCopyProofs DenseSolve DenseSolveProofs DenseSolveComplete DenseSolveNZ.
 Import ListNotations.
 
@@ -76,6 +82,22 @@ Theorem dense_row_is_empty_iff : forall m i, WFd m -> padzero m -> words32 m -> 
   (d_row_is_empty m i = true <-> forall j, j < dc m -> d_get m i j = false).
 Proof. exact row_is_empty_iff. Qed.
 
+Theorem popcount_swar32_correct : forall w, (0 <= w < 2 ^ 32)%Z -> of_hweight32 w = Some (popc 32 w).
+Proof. exact hweight32_correct. Qed.
+
+Theorem popcount_swar64_correct : forall x, (0 <= x < 2 ^ 64)%Z -> of_popcount_3 c_of_m1 c_of_m2 c_of_m4 c_of_h01 x = Some (popc 64 x).
+Proof. exact popcount_3_correct. Qed.
+
+Theorem popcount_byte_table_correct :
+  length c_of_hw8table = 256 /\ forall b, (0 <= b < 256)%Z -> nth (Z.to_nat b) c_of_hw8table 0%Z = popc 8 b.
+Proof. exact hw8table_correct. Qed.
+
+Theorem popcount_table32_correct : forall w, (0 <= w < 2 ^ 32)%Z -> hweight32_table w = popc 32 w.
+Proof. exact hweight32_table_correct. Qed.
+
+Theorem popcount_naive32_correct : forall w, (0 <= w < 2 ^ 32)%Z -> naive 32 w 0%Z = popc 32 w.
+Proof. exact hweight32_naive_correct. Qed.
+
 (* all-zero rows (whose right-hand side the ML path leaves unspecified) do not influence the result *)
 Theorem solver_ignores_zero_rows :
   forall (Sy : Type) (sxor : Sy -> Sy -> Sy) (s0 : Sy),
@@ -91,6 +113,9 @@ Print Assumptions dense_get_after_copy.
 Print Assumptions dense_get_after_copyrows.
 Print Assumptions dense_get_after_copycols.
 Print Assumptions dense_row_is_empty_iff.
+Print Assumptions popcount_swar32_correct.
+Print Assumptions popcount_swar64_correct.
+Print Assumptions popcount_byte_table_correct.
 Print Assumptions solver_returns_the_solution.
 Print Assumptions solver_fails_iff_rank_deficient.
 Print Assumptions solver_failure_independent_of_rhs.
